@@ -147,6 +147,8 @@ TProc ==
 TEnv ==
     \/ Is("Advance") /\ Step(Advance(Ev.dt)) /\ now' = Ev.now
     \* an arm that was not ready, the end of a run: nothing happens, but the state must still agree
+    \* popularity is abstract in Cache.tla: a recorded change of it is a stuttering step
+    \/ Is("Bump") /\ UNCHANGED vars /\ PostOKStutter
     \/ Is("Skip") /\ UNCHANGED vars /\ PostOKStutter
     \/ Is("End") /\ UNCHANGED vars /\ PostOKStutter
     \* a client that is blocked for ever: only explainable by the known finding D6
